@@ -211,14 +211,14 @@ func buildSchema(impl string, stringKeys bool) *graphql.Schema {
 				func(ctx context.Context, args manualArgs) ([]Item, schemabuilder.PaginationInfo, schemabuilder.PostProcessOptions, error) {
 					return nil, schemabuilder.PaginationInfo{}, schemabuilder.PostProcessOptions{}, fmt.Errorf("the manual resolver must not be used")
 				},
-				func(ctx context.Context, args plainArgs) ([]Item, error) { return current(), nil },
+				func(ctx context.Context, args plainArgs) ([]Item, error) { return currentFrom(args.MinRank), nil },
 				func(ctx context.Context) bool { return true }, opts...)
 		} else if impl == "plain" || impl == "batch" || impl == "xval" {
-			q.FieldFunc("items", func() []Item { return current() }, opts...)
+			q.FieldFunc("items", func(args itemArgs) []Item { return currentFrom(args.MinRank) }, opts...)
 		} else {
-			q.FieldFunc("items", func(ctx context.Context) ([]*Item, error) {
+			q.FieldFunc("items", func(ctx context.Context, args itemArgs) ([]*Item, error) {
 				var out []*Item
-				for _, it := range current() {
+				for _, it := range currentFrom(args.MinRank) {
 					it := it
 					out = append(out, &it)
 				}
@@ -228,9 +228,9 @@ func buildSchema(impl string, stringKeys bool) *graphql.Schema {
 	} else {
 		obj := s.Object("SItem", SItem{})
 		obj.Key("id")
-		q.FieldFunc("items", func() []SItem {
+		q.FieldFunc("items", func(args itemArgs) []SItem {
 			var out []SItem
-			for _, it := range current() {
+			for _, it := range currentFrom(args.MinRank) {
 				out = append(out, SItem{Id: fmt.Sprintf("k%d", it.Id), Name: it.Name, Desc: it.Desc, Rank: it.Rank, Score: it.Score, U: it.U, Label: it.Label})
 			}
 			return out
@@ -249,11 +249,13 @@ var impls = []string{"plain", "expensive", "batch", "batchfb", "stringkeys", "mi
 
 type manualArgs struct {
 	Note           *string
+	MinRank        *int64
 	PaginationArgs schemabuilder.PaginationArgs
 }
 
 type plainArgs struct {
-	Note *string
+	Note    *string
+	MinRank *int64
 }
 
 func init() {
@@ -306,6 +308,24 @@ type Req struct {
 	FilterFields  []string // nil = all
 	SortBy        string
 	Desc          bool
+	// MinRank: the field's own optional argument (the resolver leaves out items below it);
+	// most requests do not pass it
+	MinRank *int64
+}
+
+// itemArgs are the paginated field's own arguments.
+type itemArgs struct {
+	MinRank *int64
+}
+
+func currentFrom(minRank *int64) []Item {
+	var out []Item
+	for _, it := range current() {
+		if minRank == nil || it.Rank >= *minRank {
+			out = append(out, it)
+		}
+	}
+	return out
 }
 
 type Case struct {
@@ -318,7 +338,12 @@ type Case struct {
 }
 
 func refList(c Case) []Item {
-	items := append([]Item{}, c.Items...)
+	var items []Item
+	for _, it := range c.Items {
+		if c.Req.MinRank == nil || it.Rank >= *c.Req.MinRank {
+			items = append(items, it)
+		}
+	}
 	if c.Req.FilterText != nil && *c.Req.FilterText != "" {
 		toks := tokens(*c.Req.FilterText)
 		fields := c.Req.FilterFields
@@ -393,6 +418,9 @@ func argsText(c Case, first, last *int64, after, before *string) string {
 	}
 	if before != nil {
 		parts = append(parts, fmt.Sprintf("before: %q", *before))
+	}
+	if c.Req.MinRank != nil {
+		parts = append(parts, fmt.Sprintf("minRank: %d", *c.Req.MinRank))
 	}
 	if c.Req.FilterText != nil {
 		b, _ := json.Marshal(*c.Req.FilterText)
@@ -573,7 +601,7 @@ func check(c Case) (nt bool, labels []string, sig string, err error) {
 		}
 	case "single":
 		// cursors of the full list first (opaque: learn them from thunder)
-		all := Case{Items: c.Items, Impl: c.Impl, Fallback: c.Fallback, Req: Req{FilterText: c.Req.FilterText, FilterFields: c.Req.FilterFields, SortBy: c.Req.SortBy, Desc: c.Req.Desc}, N: 1}
+		all := Case{Items: c.Items, Impl: c.Impl, Fallback: c.Fallback, Req: Req{FilterText: c.Req.FilterText, FilterFields: c.Req.FilterFields, SortBy: c.Req.SortBy, Desc: c.Req.Desc, MinRank: c.Req.MinRank}, N: 1}
 		full, text, err := fetch(all, nil, nil, nil, nil)
 		if err != nil {
 			return false, nil, "error", fmt.Errorf("unpaginated request failed: %v (%s)", err, text)
@@ -698,6 +726,10 @@ func genCase(t *rapid.T) Case {
 	}
 	if rapid.IntRange(0, 1).Draw(t, "hassort") == 0 {
 		c.Req.SortBy = rapid.SampledFrom([]string{"rank", "score", "u", "label"}).Draw(t, "sortby")
+	}
+	if rapid.IntRange(0, 3).Draw(t, "hasminrank") == 0 {
+		mr := int64(rapid.IntRange(-2, 4).Draw(t, "minrank"))
+		c.Req.MinRank = &mr
 		c.Req.Desc = rapid.Bool().Draw(t, "desc")
 	}
 	c.Mode = rapid.SampledFrom([]string{"forward", "backward", "single", "single"}).Draw(t, "mode")
